@@ -37,6 +37,94 @@ def cli_contract(ck, ld, dc):
               "drf_command.main must register cp, ln, ls, mv with their parser builders", {})
 
 
+def transfer_contract(ck, ld):
+    """_run_cp / _run_mv / _run_ln against the contract of ilsdrf (modular): on a recording stand-in for os / shutil, for every
+    (src, dest) pair the listing is asked once with the parsed options, and every listed file gets exactly one transfer of the
+    command's kind to dest/<path relative to src>, in listing order, after its directory exists; nothing else is touched."""
+    import types, itertools, argparse
+    real = {k: ld.__dict__[k] for k in ("os", "shutil", "ilsdrf")}
+    rels = ["drf_properties.h5", "2017-01-01T00-00-00/rf@1483228800.000.h5", "2017-01-01T00-00-00/rf@1483228801.000.h5", "metadata/dmd_properties.h5",
+            "metadata/2017-01-01T00-00-00/metadata@1483228800.h5"]
+    ncase = 0
+    for cmd, sym in (("cp", None), ("mv", None), ("ln", False), ("ln", True)):
+        builder = getattr(ld, "_build_%s_parser" % cmd)
+        for chs, listing, pre in itertools.product(([], ["ch"], ["ch/"], ["./ch"], ["a,b"], ["a", " b "]), ([], rels[:1], rels), (False, True)):
+            parser = builder(argparse.ArgumentParser)
+            argv = []
+            for c in chs:
+                argv += ["-c", c]
+            if sym:
+                argv.append("--symbolic")
+            argv += ["-R", "--nodmdprops", "/S/root", "/D/root"]
+            a = parser.parse_args(argv)
+            trace = []
+            made = set()
+
+            def exists(p_):
+                return pre or os.path.normpath(p_) in made
+
+            def makedirs(p_, *x, **k):
+                trace.append(("makedirs", p_))
+                made.add(os.path.normpath(p_))
+
+            def lister(path, **kw):
+                trace.append(("ilsdrf", path, dict(kw)))
+                # as os.walk hands paths over: os.path.join(top, relative)
+                return iter([os.path.join(path, r) for r in listing])
+
+            def op(name):
+                def f(s_, d_, *x, **k):
+                    trace.append((name, s_, d_))
+                return f
+            fake_os = types.SimpleNamespace(path=types.SimpleNamespace(**{k: getattr(os.path, k) for k in ("join", "relpath", "dirname", "abspath", "normpath", "basename", "sep", "split")}, exists=exists),
+                                            makedirs=makedirs, link=op("os.link"), symlink=op("os.symlink"), sep=os.sep, getcwd=os.getcwd, curdir=os.curdir)
+            fake_sh = types.SimpleNamespace(copy2=op("shutil.copy2"), move=op("shutil.move"))
+            ld.os, ld.shutil, ld.ilsdrf = fake_os, fake_sh, lister
+            err = None
+            try:
+                getattr(ld, "_run_" + cmd)(a)
+            except Exception as e:
+                err = e
+            finally:
+                for k, v in real.items():
+                    ld.__dict__[k] = v
+            ncase += 1
+            tag = "%s%s -c %s listing=%d dest-dirs-%s" % (cmd, " --symbolic" if sym else "", chs, len(listing), "exist" if pre else "absent")
+            names = [b.strip() for c in chs for b in c.strip().split(",")] or [None]
+            want_op = {"cp": "shutil.copy2", "mv": "shutil.move"}.get(cmd, "os.symlink" if sym else "os.link")
+            ok = err is None
+            detail = "raised %r" % (err,) if err else ""
+            if ok:
+                calls = [t for t in trace if t[0] == "ilsdrf"]
+                srcs = [os.path.join("/S/root", nm) if nm is not None else "/S/root" for nm in names]
+                dsts = [os.path.join("/D/root", nm) if nm is not None else "/D/root" for nm in names]
+                ok = [c[1] for c in calls] == srcs and all(c[2].get("reverse") is True and c[2].get("include_dmd_properties") is False and c[2].get("recursive") is True
+                                                           and "symbolic" not in c[2] and "src" not in c[2] for c in calls)
+                detail = "listing calls %s" % calls
+                if ok:
+                    # split the trace per pair and compare with the expected transfers
+                    it = iter(trace)
+                    pos = 0
+                    exp_made = set()
+                    for s_, d_ in zip(srcs, dsts):
+                        seg_ok = trace[pos][0] == "ilsdrf"
+                        pos += 1
+                        for r in listing:
+                            dest = os.path.normpath(os.path.join(d_, r))
+                            ddir = os.path.dirname(dest)
+                            if not pre and ddir not in exp_made:
+                                seg_ok = seg_ok and pos < len(trace) and trace[pos][0] == "makedirs" and os.path.normpath(trace[pos][1]) == ddir
+                                exp_made.add(ddir)
+                                pos += 1
+                            seg_ok = seg_ok and pos < len(trace) and trace[pos][0] == want_op and trace[pos][1] == os.path.join(s_, r) and os.path.normpath(trace[pos][2]) == dest
+                            pos += 1
+                        ok = ok and seg_ok
+                    ok = ok and pos == len(trace)
+                    detail = "trace %s" % (trace[:8],)
+            ck.struct("transfer.exactly_the_listing", bool(ok), "%s: %s" % (tag, detail), {"attr": tag, "no_input": False})
+    ck.enumerations.append(("transfer.exactly_the_listing", ncase, 0, []))
+
+
 def replay_transfer(o, model):
     r = replay_py.run_driver("transfer_oracle.py", {"seed": 19, "cases": 400, "max_failures": 1})
     if r["failures"]:
@@ -50,6 +138,9 @@ def run(tier, seed, replay=None):
     ld = pyload.module("list_drf", symbolic=False)
     dc = pyload.module("drf_command", symbolic=False)
     cli_contract(ck, ld, dc)
+    transfer_contract(ck, ld)
+    ck.replayers["transfer."] = replay_transfer
+    ck.replayers["cli."] = replay_transfer
     for nm in ("_parse_srcdest_args", "_run_cp", "_run_ln", "_run_mv"):
         ck.add_function(pyload.source_info(ld, nm))
     ck.add_function(pyload.source_info(dc, "main"))
@@ -58,6 +149,6 @@ def run(tier, seed, replay=None):
     ck.bounded_runs.append(("bounded.transfer_vs_listing", "%d generated trees x random command (cp/mv/ln/ln --symbolic) and options (channel lists incl. 'ch/' and './ch', --only, -R, time window, include flags): destination set = listing set at the same relative paths, content / link identity, source unchanged or exactly the transferred files removed" % n,
                             r["cases"], r["failures"]))
     ck.trust({"argparse store/store_true/append": "executed", "shutil.copy2/move, os.link/symlink": "assumed to transfer the content"})
-    ck.assumptions += ["the listing itself is checked in C14; here the transfer loops are covered by the bounded differential (labelled bounded)"]
+    ck.assumptions += ["the listing itself is checked in C14; the transfer loops are checked against the listing's contract on a recording stand-in for os/shutil over enumerated channel-argument forms and listings, and by the bounded differential on real trees"]
     ck.extra["explanation"] = "argument plumbing checked on the real parsers; the transfer loops by a bounded differential against the equivalent listing"
     return ck
